@@ -70,7 +70,7 @@ def specs(rng, tier, wid, nw, env):
                     if mn > 40 and ec in ('winfull', 'limbs', 'win') and q and bc != 'rand': continue
                     k += 1
                     if k % nw == wid: yield ('powm', mn, mc, ec, bc, rng.randint(0, 1), rng.getrandbits(48))
-    N = 3000 if q else 80000
+    N = 20000 if q else 300000
     for i in range(N):
         c = rng.random()
         if c < 0.5: yield ('powm', rng.randint(1, 6), rng.choice(MCLS), rng.choice(ECLS), rng.choice(BCLS), rng.randint(0, 1), rng.getrandbits(48))
